@@ -171,7 +171,14 @@ func buildMsg(pkg string, m *spec.Msg, mi int, sci *descriptor.SourceCodeInfo) *
 
 // Build returns the serialized CodeGeneratorRequest for a program. param is the complete
 // plugin parameter string.
-func Build(s *spec.Spec, param string) []byte {
+func Build(s *spec.Spec, param string) []byte { return build(s, param, "") }
+
+// BuildFor is Build with the given file of the request (a dependency file) as the file to generate: for
+// protoc-gen-gogo, which produces one Go package per invocation.
+func BuildFor(s *spec.Spec, param string, file string) []byte { return build(s, param, file) }
+
+func build(s *spec.Spec, param string, only string) []byte {
+	var gen []string
 	f := &descriptor.FileDescriptorProto{
 		Name:       proto.String(s.File),
 		Package:    proto.String(s.Package),
@@ -210,15 +217,25 @@ func Build(s *spec.Spec, param string) []byte {
 			Syntax:  proto.String("proto3"),
 			Options: &descriptor.FileOptions{GoPackage: proto.String(d.GoPackage)},
 		}
+		dsci := &descriptor.SourceCodeInfo{}
 		for mi := range d.Messages {
-			df.MessageType = append(df.MessageType, buildMsg(d.Package, &d.Messages[mi], mi, nil))
+			df.MessageType = append(df.MessageType, buildMsg(d.Package, &d.Messages[mi], mi, dsci))
+		}
+		df.SourceCodeInfo = dsci
+		df.Dependency = []string{"gogoproto/gogo.proto"}
+		if err := proto.SetExtension(df.Options, gogoproto.E_GoprotoGettersAll, proto.Bool(false)); err != nil {
+			panic(err)
 		}
 		files = append(files, df)
 		f.Dependency = append(f.Dependency, d.File)
 	}
 	files = append(files, f)
+	gen = append(gen, s.File)
+	if only != "" {
+		gen = []string{only}
+	}
 	req := &plugin.CodeGeneratorRequest{
-		FileToGenerate: []string{s.File},
+		FileToGenerate: gen,
 		Parameter:      proto.String(param),
 		ProtoFile:      files,
 	}
